@@ -10,6 +10,7 @@ import (
 	"go/constant"
 	"go/token"
 	"go/types"
+	"golang.org/x/tools/go/ast/astutil"
 	"strings"
 	"unicode"
 )
@@ -2050,6 +2051,32 @@ func c10RootDispatch(c *Ctx, r *Report, clause string) {
 		if loop == nil || contCond == nil {
 			r.Undecided(clause, "R4 DECISION-TABLE", key, c.pos(f.Decl.Pos()), "no `for <rune may continue an identifier>; r = l.next()` loop")
 			return
+		}
+		// a condition held in a local first (`ok := isLetter(r) || …; if !ok { break }`) is that condition
+		{
+			defs := newDefs(info)
+			defs.scan(f.Decl.Body)
+			cc := cloneNode(info, contCond).(ast.Expr)
+			wrap := &ast.ParenExpr{X: cc}
+			for k := 0; k < 3; k++ {
+				astutil.Apply(wrap, func(cur *astutil.Cursor) bool {
+					id, ok := cur.Node().(*ast.Ident)
+					if !ok {
+						return true
+					}
+					o := info.Uses[id]
+					v, isV := o.(*types.Var)
+					if !isV || v.IsField() || defs.count[o] != 1 || defs.single[o] == nil {
+						return true
+					}
+					if b, isB := v.Type().Underlying().(*types.Basic); !isB || b.Info()&types.IsBoolean == 0 {
+						return true
+					}
+					cur.Replace(&ast.ParenExpr{X: cloneNode(info, defs.single[o]).(ast.Expr)})
+					return false
+				}, nil)
+			}
+			contCond = wrap.X
 		}
 		// the tested rune: a local assigned from l.next() (before the loop and in the post statement)
 		pe := newPathEnum(info)
